@@ -374,6 +374,65 @@ Theorem C05_timeout_needs_locktime :
      spend_p2wsh h sigcheck ctx (receiver_htlc_spend_timeout sig ws) = false).
 Proof. exact C05_timeout_needs_locktime_proof. Qed.
 
+(* (extra, safety side of the same scripts) a delayed / confirmed-only path is accepted ONLY IF the
+   BIP-112 rule holds for the spending input (csv_sat: tx version >= 2, nSequence not disabled, same
+   unit, nSequence >= delay) -- the contest period the revocation mechanism relies on *)
+Theorem C05_delay_is_enforced :
+  forall (sha256 ripemd160 : bytes -> bytes) (sigcheck : bytes -> bytes -> sigres),
+  let h := hash160_of sha256 ripemd160 in
+  (forall x, hash20 (ripemd160 x)) ->
+  (* to_local *)
+  (forall ctx csv selfkey revkey sig ws,
+     key33 revkey -> key33 selfkey -> u32 csv -> elem_ok sig ->
+     parse_script ws = Some (commit_script_to_self_of sha256 ripemd160 csv selfkey revkey) ->
+     spend_p2wsh h sigcheck ctx (commit_spend_timeout sig ws) = true -> csv_sat ctx csv = true)
+  /\
+  (* lease to_local: CSV and the CLTV lease expiry *)
+  (forall ctx csv lease selfkey revkey sig ws,
+     key33 revkey -> key33 selfkey -> u32 csv -> u32 lease -> elem_ok sig ->
+     parse_script ws = Some (lease_commit_script_to_self_of sha256 ripemd160 selfkey revkey csv lease) ->
+     spend_p2wsh h sigcheck ctx (commit_spend_timeout sig ws) = true ->
+     csv_sat ctx csv && cltv_sat ctx lease = true)
+  /\
+  (* second-level output *)
+  (forall ctx csv delaykey revkey sig ws,
+     key33 revkey -> key33 delaykey -> u32 csv -> elem_ok sig ->
+     parse_script ws = Some (second_level_htlc_script_of sha256 ripemd160 revkey delaykey csv) ->
+     spend_p2wsh h sigcheck ctx (htlc_second_level_spend sig ws) = true -> csv_sat ctx csv = true)
+  /\
+  (* to_remote of anchor channels *)
+  (forall ctx key sig ws,
+     key33 key -> elem_ok sig ->
+     parse_script ws = Some (commit_script_to_remote_confirmed_of sha256 ripemd160 key) ->
+     spend_p2wsh h sigcheck ctx (commit_spend_to_remote_confirmed sig ws) = true -> csv_sat ctx 1 = true)
+  /\
+  (* offered HTLC with confirmedSpend, preimage path *)
+  (forall ctx senderkey receiverkey revkey p sig ws,
+     key33 revkey -> key33 senderkey -> key33 receiverkey -> elem_ok sig -> blen p = 32 ->
+     parse_script ws = Some (sender_htlc_script_of sha256 ripemd160 true senderkey receiverkey revkey (sha256 p)) ->
+     h revkey <> h p ->
+     spend_p2wsh h sigcheck ctx (sender_htlc_spend_redeem sig p ws) = true -> csv_sat ctx 1 = true)
+  /\
+  (* received HTLC with confirmedSpend, timeout path *)
+  (forall ctx cltv senderkey receiverkey revkey payhash sig ws,
+     key33 revkey -> key33 senderkey -> key33 receiverkey -> u32 cltv -> elem_ok sig ->
+     parse_script ws = Some (receiver_htlc_script_of sha256 ripemd160 true cltv senderkey receiverkey revkey payhash) ->
+     h revkey <> h [] ->
+     spend_p2wsh h sigcheck ctx (receiver_htlc_spend_timeout sig ws) = true -> csv_sat ctx 1 = true)
+  /\
+  (* taproot to_local delay leaf *)
+  (forall ctx (prod : bool) csv selfkey sig ls cb,
+     xonly selfkey -> u32 csv -> elem_ok sig -> elem_ok ls -> elem_ok cb ->
+     parse_script ls = Some (taproot_local_commit_delay_script_of sha256 ripemd160 prod csv selfkey) ->
+     spend_tapleaf h sigcheck ctx (taproot_commit_spend_success sig ls cb) = true -> csv_sat ctx csv = true)
+  /\
+  (* taproot second-level delay leaf *)
+  (forall ctx (prod : bool) csv delaykey sig ls cb,
+     xonly delaykey -> u32 csv -> elem_ok sig -> elem_ok ls -> elem_ok cb ->
+     parse_script ls = Some (taproot_second_level_tap_leaf_of sha256 ripemd160 prod delaykey csv) ->
+     spend_tapleaf h sigcheck ctx (taproot_htlc_spend_success sig ls cb) = true -> csv_sat ctx csv = true).
+Proof. exact C05_delay_is_enforced_proof. Qed.
+
 (* (extra) the 2-of-2 funding output is spent by SpendMultiSig whichever way the keys sort *)
 Theorem C05_funding_spend_accepts :
   forall (sha256 ripemd160 : bytes -> bytes) (sigcheck : bytes -> bytes -> sigres),
